@@ -446,20 +446,10 @@ fn srv_dir(srv: &Path, u: &uri::Rsync) -> PathBuf {
     srv.join(u.canonical_authority().as_ref()).join(u.module_name()).join(u.path())
 }
 
-fn prop_real(ctx: &Ctx, p: &Pair, info: &mut CaseInfo) -> Verdict {
-    let (Ok(ua), Ok(ub)) = (uri::Rsync::from_str(&p.a), uri::Rsync::from_str(&p.b)) else { return Verdict::Dropped("unparsable".into()) };
-    let dirs = [as_dir(&ua), as_dir(&ub)];
-    info.class(format!("edit={}", p.edit));
-    if dirs[0] == dirs[1] {
-        info.class("equivalent_skipped");
-        return Verdict::Pass;
-    }
-    // a component of 255+ bytes cannot be created on the fake server either
-    if p.a.split('/').chain(p.b.split('/')).any(|s| s.len() > 200) || p.a.len() > 3000 {
-        return Verdict::Dropped("name_too_long_for_fs".into());
-    }
-    let scratch = ctx.scratch();
-    let root = scratch.path();
+/// Two trust anchors (keys 0 and 1) whose SIA directories are `dirs`; TA i publishes a manifest, a
+/// CRL and one ROA on the fake rsync server if `publish[i]` (its certificate is always published).
+/// None = the server tree cannot hold both (a file where a directory is needed).
+fn build_real(root: &Path, dirs: &[uri::Rsync; 2], publish: [bool; 2]) -> Option<(WorldPaths, Vec<bytes::Bytes>, Vec<uri::Rsync>)> {
     let paths = WorldPaths { conf: root.join("routinator.conf"), cache: root.join("cache"), tals: root.join("tals"), srv: root.join("srv"), rsync_log: root.join("rsync.log"), rsync_bin: std::env::current_exe().expect("exe").with_file_name("rvrsync") };
     for d in [&paths.cache, &paths.tals, &paths.srv, &root.join("dump")] {
         std::fs::create_dir_all(d).unwrap();
@@ -479,22 +469,67 @@ fn prop_real(ctx: &Ctx, p: &Pair, info: &mut CaseInfo) -> Verdict {
         let crl = gen::issue_crl(&issuer, gen::t(now, -60), gen::t(now, 86400), &[], 1, None);
         let entries = vec![("r.roa".to_string(), gen::sha256(&roa)), ("c.crl".to_string(), gen::sha256(&crl))];
         let mft = gen::issue_manifest(&issuer, &mft_uri, 1, gen::t(now, -120), gen::t(now, 86400), &entries, gen::validity(now, -180, 86400), 1000, None);
-        let sd = srv_dir(&paths.srv, dir);
-        if std::fs::create_dir_all(&sd).is_err() {
-            // e.g. one URI's directory is the other's file on the fake server: not this property
-            return Verdict::Dropped("server_tree_conflict".into());
-        }
         let modroot = paths.srv.join(dir.canonical_authority().as_ref()).join(dir.module_name());
-        let writes = [(modroot.join(format!("ta{}.cer", i)), ta.clone()), (sd.join("m.mft"), mft.clone()), (sd.join("c.crl"), crl), (sd.join("r.roa"), roa)];
-        for (path, data) in writes {
-            if std::fs::write(&path, &data).is_err() {
-                return Verdict::Dropped("server_tree_conflict".into());
+        std::fs::create_dir_all(&modroot).ok()?;
+        std::fs::write(modroot.join(format!("ta{}.cer", i)), &ta).ok()?;
+        if publish[i] {
+            let sd = srv_dir(&paths.srv, dir);
+            std::fs::create_dir_all(&sd).ok()?;
+            for (name, data) in [("m.mft", mft.clone()), ("c.crl", crl), ("r.roa", roa)] {
+                std::fs::write(sd.join(name), &data).ok()?;
             }
         }
         std::fs::write(paths.tals.join(format!("t{}.tal", i)), gen::tal_text(&[ta_uri.to_string()], i)).unwrap();
         manifests.push(mft);
         mft_uris.push(mft_uri);
     }
+    Some((paths, manifests, mft_uris))
+}
+
+/// Informational probe (never a verdict of this property): trust anchor 1 merely *claims* a
+/// publication point below trust anchor 0's manifest file, resp. at trust anchor 0's directory;
+/// what happens to the run?
+fn prefix_probe(ctx: &Ctx) -> serde_json::Value {
+    let mut res = serde_json::Map::new();
+    for (name, b_dir) in [("control: unrelated directory", "rsync://h.example/m/b/"), ("claimed point below the other point's manifest file", "rsync://h.example/m/a/m.mft/")] {
+        let scratch = ctx.scratch();
+        let dirs = [uri::Rsync::from_str("rsync://h.example/m/a/").unwrap(), uri::Rsync::from_str(b_dir).unwrap()];
+        let Some((paths, _, _)) = build_real(scratch.path(), &dirs, [true, false]) else {
+            res.insert(name.into(), serde_json::json!("server tree conflict"));
+            continue;
+        };
+        let mut config = config_for(&Cfg { threads: 1, ..Default::default() }, &paths);
+        config.allow_dubious_hosts = true;
+        let mut outcomes = Vec::new();
+        for run in 0..2 {
+            outcomes.push(match run_config(&config, false, &empty_exceptions()) {
+                Ok(o) => format!("run {}: ok, {} VRPs", run + 1, o.payload.origins.len()),
+                Err(e) => format!("run {}: {}", run + 1, e),
+            });
+        }
+        res.insert(name.into(), serde_json::json!(outcomes));
+    }
+    serde_json::Value::Object(res)
+}
+
+fn prop_real(ctx: &Ctx, p: &Pair, info: &mut CaseInfo) -> Verdict {
+    let (Ok(ua), Ok(ub)) = (uri::Rsync::from_str(&p.a), uri::Rsync::from_str(&p.b)) else { return Verdict::Dropped("unparsable".into()) };
+    let dirs = [as_dir(&ua), as_dir(&ub)];
+    info.class(format!("edit={}", p.edit));
+    if dirs[0] == dirs[1] {
+        info.class("equivalent_skipped");
+        return Verdict::Pass;
+    }
+    // a component of 255+ bytes cannot be created on the fake server either
+    if p.a.split('/').chain(p.b.split('/')).any(|s| s.len() > 200) || p.a.len() > 3000 {
+        return Verdict::Dropped("name_too_long_for_fs".into());
+    }
+    let scratch = ctx.scratch();
+    let root = scratch.path();
+    let Some((paths, manifests, mft_uris)) = build_real(root, &dirs, [true, true]) else {
+        // e.g. one URI's directory is the other's file on the fake server: not this property
+        return Verdict::Dropped("server_tree_conflict".into());
+    };
     let outside = |p: &String| !p.starts_with("cache/") && !p.starts_with("dump/") && p != "rsync.log";
     let before: std::collections::BTreeSet<String> = list_tree(root).into_iter().filter(outside).collect();
     let mut config = config_for(&Cfg { threads: 1, ..Default::default() }, &paths);
@@ -592,23 +627,27 @@ pub fn run(ctx: &Ctx, rep: &mut Report, replay: Option<&serde_json::Value>) {
     .iter()
     .map(|(k, a, b, e)| Pair { kind: *k, a: a.to_string(), b: b.to_string(), edit: e.to_string() })
     .collect();
-    for p in &directed {
+    let no_directed = std::env::var_os("RV_NO_DIRECTED").is_some();
+    for p in directed.iter().filter(|_| !no_directed) {
         run_case(ctx, rep, "paths", p, |p, info| prop_paths(&fx, p, info));
     }
-    let n = ctx.tier.pick(1500u32, 60_000);
+    let n = ctx.tier.pick(1500u32, 12_000);
     let t = std::time::Instant::now();
     run_prop_par(ctx, rep, "paths", n, 16, || pair(Kind::Rsync), |p, info| prop_paths(&fx, p, info));
     eprintln!("C30: rsync pairs {:.1}s", t.elapsed().as_secs_f64());
-    run_prop_par(ctx, rep, "paths", n * 3, 8, || pair(Kind::Https), |p, info| prop_paths(&fx, p, info));
+    run_prop_par(ctx, rep, "paths", ctx.tier.pick(4500u32, 100_000), 8, || pair(Kind::Https), |p, info| prop_paths(&fx, p, info));
     eprintln!("C30: https pairs {:.1}s", t.elapsed().as_secs_f64());
     // real operations
     ctx.shrink_iters.store(60, std::sync::atomic::Ordering::Relaxed);
     let real_n = ctx.tier.pick(40u32, 1500);
     let mut seen: BTreeMap<String, u64> = BTreeMap::new();
-    for p in directed.iter().filter(|p| p.kind == Kind::Rsync) {
+    for p in directed.iter().filter(|p| p.kind == Kind::Rsync && !no_directed) {
         run_case(ctx, rep, "real", p, |p, info| prop_real(ctx, p, info));
         *seen.entry(p.edit.clone()).or_default() += 1;
     }
     run_prop_par(ctx, rep, "real", real_n, 8, || pair(Kind::Rsync), |p, info| prop_real(ctx, p, info));
     rep.extra.insert("directed_real_pairs_by_edit".into(), serde_json::json!(seen));
+    if !rep.violated() {
+        rep.extra.insert("informational_prefix_conflict_probe".into(), prefix_probe(ctx));
+    }
 }
